@@ -766,7 +766,12 @@ impl Driver {
             gens.extend(Self::generics_of(g));
         }
         let mut_methods: BTreeSet<String> = self.tables.fns.iter().filter(|f| f.self_kind == SelfKind::Mut).map(|f| f.name.clone()).collect();
-        let fuel_names: BTreeSet<String> = self.tables.fns.iter().filter(|f| f.fuel).map(|f| f.name.clone()).collect();
+        let mut fuel_names: BTreeSet<String> = self.tables.fns.iter().filter(|f| f.fuel).map(|f| f.name.clone()).collect();
+        for f in self.tables.fns.iter().filter(|f| f.fuel) {
+            if let Some(st) = &f.self_ty {
+                fuel_names.insert(format!("{}::{}", st.rsplit('.').next().unwrap().split('<').next().unwrap(), f.name));
+            }
+        }
         let mutarg_names: BTreeSet<String> = self.tables.fns.iter().filter(|f| f.has_mut_params()).map(|f| f.name.clone()).collect();
         let rtys = info.result_tys();
         let mut rcs = vec![];
